@@ -4,8 +4,11 @@ package services
 
 import (
 	"context"
+	"time"
 
 	"github.com/go-logr/logr"
+	"k8s.io/client-go/tools/leaderelection"
+	"k8s.io/client-go/tools/leaderelection/resourcelock"
 	"sigs.k8s.io/controller-runtime/pkg/client"
 
 	"github.com/jcmoraisjr/haproxy-ingress/pkg/acme"
@@ -45,3 +48,51 @@ func (s *Services) VerifReloadQueue() utils.QueueFacade { return s.reloadQueue }
 
 // VerifReload calls the callback of the reload queue.
 func (s *Services) VerifReload(ctx context.Context) error { return s.reloadHAProxy(ctx, nil) }
+
+// VerifAcmeSigner exposes the acme signer, nil if the acme server is disabled.
+func (s *Services) VerifAcmeSigner() acme.Signer {
+	if s.acmeClient == nil {
+		return nil
+	}
+	return s.acmeClient.signer
+}
+
+// VerifAcmeSetQueue replaces the work queue behind the acme queue facade,
+// the facade itself (leader filter) stays in front of it.
+func (s *Services) VerifAcmeSetQueue(q utils.QueueFacade) {
+	s.acmeClient.queue = q
+}
+
+// VerifAcmeCheck calls the callback of the periodic certificate check.
+func (s *Services) VerifAcmeCheck() (int, error) { return s.acmePeriodicCheck() }
+
+// VerifLeaderElection builds the leader elector over lock, with the callbacks
+// and the runnables SetupWithManager would configure. Call before VerifLeaderStart.
+func (s *Services) VerifLeaderElection(lock resourcelock.Interface, lease, renew, retry time.Duration) error {
+	le, err := leaderelection.NewLeaderElector(leaderelection.LeaderElectionConfig{
+		Name:          "verif",
+		Lock:          lock,
+		LeaseDuration: lease,
+		RenewDeadline: renew,
+		RetryPeriod:   retry,
+		Callbacks: leaderelection.LeaderCallbacks{
+			OnStartedLeading: s.svcleader.onStartedLeading,
+			OnStoppedLeading: s.svcleader.onStoppedLeading,
+			OnNewLeader:      s.svcleader.onNewLeader,
+		},
+	})
+	if err != nil {
+		return err
+	}
+	s.svcleader.le = le
+	if s.acmeClient != nil {
+		return s.svcleader.addRunnable(s.acmeClient)
+	}
+	return nil
+}
+
+// VerifLeaderStart runs the leader election until ctx is done.
+func (s *Services) VerifLeaderStart(ctx context.Context) error { return s.svcleader.Start(ctx) }
+
+// VerifIsLeader tells whether this instance is leading.
+func (s *Services) VerifIsLeader() bool { return s.svcleader.isLeader() }
